@@ -72,6 +72,25 @@ def unroll(topo, i, depth, raw, fin, level=0):
     return out
 
 
+def instantiate(topo, i, tree, env):
+    """The same raw value as a tree of *instances* of the generated classes whose members still hold wire values
+    (text scalars): a structured source the statement lists; every level below the root must still be converted."""
+    C = env.obj(f"C{i}")
+    kw = {}
+    for n, (kind, j) in enumerate(topo[i - 1], 1):
+        f = f"f{n}"
+        v = tree.get(f)
+        if kind == "S" or v is None:
+            kw[f] = v
+        elif kind in ("direct", "cls", "opt"):
+            kw[f] = instantiate(topo, j, v, env)
+        elif kind in ("list", "tupv"):
+            kw[f] = [instantiate(topo, j, x, env) for x in v]
+        elif kind == "dict":
+            kw[f] = {k: instantiate(topo, j, x, env) for k, x in v.items()}
+    return C(**kw)
+
+
 def wrap_root(root, inner):
     kind = root[0]
     if kind in ("cls", "direct"):
@@ -171,6 +190,20 @@ def observe_case(topo, root, variant, depths, events, meta):
             ls = [{"lvl": 0, "cls": root[1], "right": False, "conv": False}]
         deepest = max((x["lvl"] for x in ls), default=-1)
         want_deepest = max((x["lvl"] for x in levels(topo, root, want, env)), default=-1)
+        # the same value as a tree of instances with raw members (depths 1..3): every level is converted as well
+        if 1 <= d <= 3:
+            try:
+                inst = wrap_root(root, instantiate(topo, root[1], unroll(topo, root[1], d, True, fin), env))
+                res_i = with_deadline(10, U, inst)
+                ls_i = levels(topo, root, res_i, env)
+                flags_i = [bool(x["right"] and x["conv"]) for x in ls_i]
+                events.append({"ev": "levels", "flags": flags_i or [True], "reach": len(ls_i) == len(ls)})
+                fr = next((x["lvl"] for x in ls_i if not (x["right"] and x["conv"])), None)
+                meta.append(dict(info, depth=d, what="instance_level" if fr is not None else "instance_levels", first_raw_level=fr))
+            except Deadline:
+                lev(d, "unmarshal_instances", {"k": "raised", "e": "NonTermination"})
+            except Exception as e:
+                lev(d, "unmarshal_instances", {"k": "raised", "e": type(e).__name__})
         # one flat event per value: a flag per level (right class and every scalar of the level converted),
         # and whether the walk reached the depth that was generated
         flags = [bool(x["right"] and x["conv"]) for x in ls]
@@ -250,7 +283,8 @@ def _run(ctx: Ctx, box):
                   "rule": "cycle topologies emitted by TLC from spec/Graph.tla (2 classes x <=2 fields over Optional/list/dict/tuple edges, "
                           "3 classes x 1 field incl. direct edges; every class and every container of a class as root), materialised in 4 "
                           "class flavours over 1-2 modules; for each depth the raw wire value is unmarshalled and walked level by level "
-                          "(one flat event per value with a flag per level: right class, scalars converted), marshalled back and passed through the codec; "
+                          "(one flat event per value with a flag per level: right class, scalars converted; at depths 1-3 also given as a tree of "
+                          "instances whose members still hold wire values), marshalled back and passed through the codec; "
                           "non-trivial = depth >= 1, distinct by (topology, root, depth)",
                   "samples": [dict(meta[len(meta) // 2], event=events[len(events) // 2])]},
         violations=viol,
